@@ -102,9 +102,20 @@ pub async fn run_life(tok: &[&str]) -> String {
     let mut listener_task: Option<tokio::task::JoinHandle<()>> = None;
 
     let (gate_tx, mut gate_rx) = tokio::sync::mpsc::unbounded_channel();
-    let options = ClientOptions::default()
-        .max_queued_requests(16)
-        .max_response_timeouts(std::num::NonZeroUsize::new(maxto));
+    // the builder's setters must be independent of the order in which they are called
+    let order = tok.iter().map(|t| t.len()).sum::<usize>() % 6;
+    let lim = std::num::NonZeroUsize::new(maxto);
+    let dl = DecodeLevel::nothing();
+    let cl = ChannelLoggingMode::StateChanges;
+    let o = ClientOptions::default();
+    let options = match order {
+        0 => o.max_queued_requests(16).max_response_timeouts(lim).decode_level(dl).channel_logging(cl),
+        1 => o.max_response_timeouts(lim).decode_level(dl).channel_logging(cl).max_queued_requests(16),
+        2 => o.decode_level(dl).channel_logging(cl).max_queued_requests(16).max_response_timeouts(lim),
+        3 => o.channel_logging(cl).max_queued_requests(16).max_response_timeouts(lim).decode_level(dl),
+        4 => o.max_response_timeouts(lim).max_queued_requests(16).channel_logging(cl).decode_level(dl),
+        _ => o.decode_level(dl).max_response_timeouts(lim).max_queued_requests(16).channel_logging(cl),
+    };
     let (channel, task) = create_tcp_client_task_with_options(
         HostAddr::ip(addr.ip(), addr.port()),
         doubling_retry_strategy(Duration::from_millis(rmin), Duration::from_millis(rmax)),
@@ -324,4 +335,49 @@ pub async fn run_life(tok: &[&str]) -> String {
         after,
         if acc_ok { "ok".to_string() } else { format!("bad({acc}/{n_connecting}/{n_connected})") }
     )
+}
+
+/// `slife r<min us>.<max us> <n>`: the production RTU client channel on a serial device path that
+/// does not exist: every open fails, so the task announces `PortState::Wait(delay)` with the
+/// delays of its retry strategy. Output: the first `n` announced delays in microseconds.
+pub async fn run_slife(tok: &[&str]) -> String {
+    struct L {
+        tx: tokio::sync::mpsc::UnboundedSender<PortState>,
+    }
+    impl Listener<PortState> for L {
+        fn update(&mut self, value: PortState) -> MaybeAsync<()> {
+            let _ = self.tx.send(value);
+            MaybeAsync::ready(())
+        }
+    }
+    let (rmin, rmax) = tok[1][1..].split_once('.').unwrap();
+    let rmin: u64 = rmin.parse().unwrap();
+    let rmax: u64 = rmax.parse().unwrap();
+    let n: usize = tok[2].parse().unwrap();
+    let (tx, mut rx) = tokio::sync::mpsc::unbounded_channel();
+    let channel = spawn_rtu_client_task(
+        "/dev/verif-no-such-serial-port",
+        SerialSettings::default(),
+        4,
+        doubling_retry_strategy(Duration::from_micros(rmin), Duration::from_micros(rmax)),
+        DecodeLevel::nothing(),
+        Some(Box::new(L { tx })),
+    );
+    let _ = channel.enable().await;
+    let mut out = Vec::new();
+    let deadline = tokio::time::Instant::now() + Duration::from_millis(3000);
+    while out.len() < n {
+        match tokio::time::timeout_at(deadline, rx.recv()).await {
+            Ok(Some(PortState::Wait(d))) => out.push(d.as_micros().to_string()),
+            Ok(Some(PortState::Open)) => out.push("open".into()),
+            Ok(Some(_)) => {}
+            _ => break,
+        }
+    }
+    let _ = channel.shutdown().await;
+    if out.is_empty() {
+        "-".into()
+    } else {
+        out.join(",")
+    }
 }
